@@ -129,13 +129,32 @@ def run_impl(case):
             return {"width": None}
         except Exception as e:  # noqa: BLE001
             return {"error": common.err_kind(e), "msg": str(e)[:200]}
+    if kind == "history":
+        return run_history(case)
+    vmin, vmax = bits_float(case["vmin"]), bits_float(case["vmax"])
+    rows, cols = case["shape"]
+    try:
+        det = pyx.make_detector("CCD", rows, cols, characteristics={"adc_bit_resolution": case["bits"], "adc_voltage_range": (vmin, vmax)})
+        return convert_on(det, case)
+    except common.InfraError:
+        raise
+    except Exception as e:  # noqa: BLE001
+        return {"error": common.err_kind(e), "msg": f"{type(e).__name__}: {e}"[:300]}
+
+
+def convert_on(det, case):
+    """one conversion of `case`'s frame on the detector object `det` (whatever it held before);
+    → {"codes", "dtype", "shape"} (+ "plain" for the noisy SAR) | {"error"}"""
+    import numpy as np
+    import pyx
+
+    kind = case["kind"]
     vmin, vmax = bits_float(case["vmin"]), bits_float(case["vmax"])
     rows, cols = case["shape"]
     frame = np.array([bits_float(b) for b in case["vs"]], dtype=np.float64).reshape(rows, cols)
     if kind == "simple32":
         frame = frame.astype(np.float32)
     try:
-        det = pyx.make_detector("CCD", rows, cols, characteristics={"adc_bit_resolution": case["bits"], "adc_voltage_range": (vmin, vmax)})
         det.signal.array = frame.copy()
         with warnings.catch_warnings(), np.errstate(all="ignore"):
             warnings.simplefilter("ignore")
@@ -157,7 +176,7 @@ def run_impl(case):
         img = det.image.array
         out = {"codes": [int(x) for x in img.reshape(-1)], "dtype": str(img.dtype), "shape": list(img.shape)}
         if kind == "sar_noise":
-            # the statement compares with the plain SAR on the same frame
+            # the statement compares with the plain SAR on the same frame (fresh detector)
             det2 = pyx.make_detector("CCD", rows, cols, characteristics={"adc_bit_resolution": case["bits"], "adc_voltage_range": (vmin, vmax)})
             det2.signal.array = frame.copy()
             with warnings.catch_warnings(), np.errstate(all="ignore"):
@@ -172,6 +191,33 @@ def run_impl(case):
         raise
     except Exception as e:  # noqa: BLE001
         return {"error": common.err_kind(e), "msg": f"{type(e).__name__}: {e}"[:300]}
+
+
+def run_history(case):
+    """2–4 conversions on ONE detector object: settings changed through the public setters of
+    `detector.characteristics`, the image bucket emptied or not in between; → {"steps": [impl per conversion]}"""
+    import pyx
+
+    ops = case["ops"]
+    rows, cols = case["shape"]
+    first = ops[0]
+    try:
+        det = pyx.make_detector("CCD", rows, cols, characteristics={
+            "adc_bit_resolution": first["bits"], "adc_voltage_range": (bits_float(first["vmin"]), bits_float(first["vmax"]))})
+    except Exception as e:  # noqa: BLE001
+        return {"error": common.err_kind(e), "msg": f"{type(e).__name__}: {e}"[:300]}
+    steps = []
+    for op in ops:
+        try:
+            det.characteristics.adc_bit_resolution = op["bits"]
+            det.characteristics.adc_voltage_range = (bits_float(op["vmin"]), bits_float(op["vmax"]))
+            if op.get("empty_before"):
+                det.image.empty()
+        except Exception as e:  # noqa: BLE001
+            steps.append({"error": common.err_kind(e), "msg": f"setting up the conversion: {type(e).__name__}: {e}"[:300]})
+            continue
+        steps.append(convert_on(det, op))
+    return {"steps": steps}
 
 
 # ------------------------------------------------------------------ model side
@@ -279,6 +325,60 @@ def report(ck, case, impl, findings, extra=None):
         ck.violation(f"C16:{name}:{clause}", why, replay)
 
 
+def op_name(op):
+    return {"simple": "simple_adc", "sar": "sar_adc", "sar_noise": "sar_adc_with_noise"}[op["kind"]]
+
+
+def history_findings(case, impl):
+    """every conversion of a history judged on its own against the statement: [(k, clause, why)]"""
+    if "error" in impl:
+        return [(0, "error", f"could not build the detector: {impl.get('msg', impl['error'])}")]
+    out = []
+    for k, (op, st) in enumerate(zip(case["ops"], impl["steps"])):
+        if op.get("narrow"):
+            continue  # an explicit data_type narrower than get_dtype(bits) is outside the statement
+        for clause, why, _ in property_predicate(op, st):
+            hist = " → ".join(f"{op_name(o)}[{o['bits']} bit{', data_type=' + o['data_type'] if o.get('data_type') else ''}{', image emptied' if o.get('empty_before') else ''}]" for o in case["ops"][: k + 1])
+            out.append((k, clause, f"conversion {k} of the history {hist} on one detector: {why}"))
+    return out
+
+
+def gen_history(rng, nv=16):
+    n = rng.choice([2, 2, 3, 4])
+    ops = []
+    # resolutions chosen so that consecutive conversions often cross a type boundary, in both directions
+    pool = [4, 8, 9, 12, 16, 17, 24, 32, 33, 48, 64]
+    for k in range(n):
+        bits = rng.choice(pool) if rng.random() < 0.8 else rng.randrange(4, 65)
+        vmin, vmax = gen_range(rng)
+        while not (vmin < vmax) or math.isinf(vmax - vmin):
+            vmin, vmax = gen_range(rng)
+        kind = rng.choice(["simple", "simple", "simple", "sar", "sar_noise"])
+        extra = {"w": None}
+        if kind == "simple":
+            r = rng.random()
+            dt = None
+            if r < 0.35:
+                dt = rng.choice(["uint8", "uint16", "uint32", "uint64"])
+            extra["data_type"] = dt
+            if dt is not None:
+                extra["w"] = width_of(dt)
+            vs = gen_voltages_simple(rng, bits, vmin, vmax, nv)
+        else:
+            if rng.random() < 0.7:
+                vmin, vmax = 0.0, abs(vmax) if vmax != 0 else 1.0
+            vs = gen_voltages_sar(rng, bits, vmax, nv)
+            if kind == "sar_noise":
+                extra["strengths"] = [float_bits(0.0)] * bits
+        vs = (vs + [vmin] * nv)[:nv]
+        # the statement's extremes are always present
+        vs[0], vs[1] = (vmax, ulps(vmax, 1)) if kind == "simple" else (vmax * 2 if vmax > 0 else 1.0, INF)
+        op = mk_case(kind, bits, vmin, vmax, vs, **extra)
+        op["empty_before"] = k > 0 and rng.random() < 0.3
+        ops.append(op)
+    return {"kind": "history", "shape": ops[0]["shape"], "ops": ops}
+
+
 # ------------------------------------------------------------------ the check
 def pick_bits(rng, i):
     return 4 + i % 61
@@ -360,11 +460,20 @@ def body(ck: common.Check):
                 t = transition(vmin, vmax, n_full, k)
                 vs += [ulps(t, -1), t, ulps(t, 1)]
             cases.append(mk_case("simple", bits, vmin, vmax, vs, data_type=None, w=None, exhaustive=True))
+    # conversion histories on one detector object (the model is functional: every conversion is a function of the
+    # signal frame and the settings only, whatever the image bucket held before)
+    for _ in range(60 if quick else 600):
+        cases.append(gen_history(rng))
     # default widths come from the implementation's own get_dtype (the table theorem ties it to the model)
+    singles = []
     for c in cases:
-        if c["kind"] in ("simple", "sar", "sar_noise") and c.get("w") is None:
-            c["w"] = default_width(c["bits"])
-    with_model = [c for c in cases if lean_request(c) is not None]
+        singles += c["ops"] if c["kind"] == "history" else [c]
+    for c in singles:
+        if c["kind"] in ("simple", "sar", "sar_noise"):
+            if c.get("w") is None:
+                c["w"] = default_width(c["bits"])
+            c["narrow"] = c["w"] < default_width(c["bits"])
+    with_model = [c for c in singles if lean_request(c) is not None]
     answers = dict(zip((id(c) for c in with_model), LeanDriver("C16").batch([lean_request(c) for c in with_model])))
     for case in cases:
         ans = answers.get(id(case))
@@ -377,6 +486,32 @@ def body(ck: common.Check):
                 ck.disagreement("rn53", case, case["expect"], ans["rn"])
             continue
         impl = run_impl(case)
+        if kind == "history":
+            ck.case(case, nontrivial=True, stream="history")
+            ck.count(f"history-length={len(case['ops'])}")
+            widths = [op["w"] for op in case["ops"]]
+            ck.count("history-widening", sum(1 for a, b in zip(widths, widths[1:]) if b > a))
+            ck.count("history-narrowing", sum(1 for a, b in zip(widths, widths[1:]) if b < a))
+            ck.count("history-emptied-between", sum(1 for op in case["ops"] if op.get("empty_before")))
+            for k, clause, why in history_findings(case, impl):
+                # smallest history that still shows it: drop the conversions after the failing one
+                small = {"kind": "history", "shape": case["shape"], "ops": case["ops"][: k + 1]}
+                simpl = run_impl(small)
+                ok = any(kk == k and cl == clause for kk, cl, _ in history_findings(small, simpl))
+                ck.violation(f"C16:history:{op_name(case['ops'][k])}:{clause}", why,
+                             {"case": small if ok else case, "impl": simpl if ok else impl})
+            for k, (op, st) in enumerate(zip(case["ops"], impl.get("steps", []))):
+                a = answers[id(op)]
+                if "bad" in a:
+                    raise common.InfraError(f"driver rejected request: {a}")
+                f = a["f"]
+                q = [y if x == "inf" else x for x, y in zip(a["q"], f)]
+                if q != f:
+                    raise common.InfraError(f"Lean models disagree with each other on {json.dumps(op)[:400]}")
+                if st.get("codes") != f or ("dtype" in st and width_of(st["dtype"]) != op["w"]):
+                    ck.disagreement("history", {"history": case, "conversion": k}, st, {"codes": f, "width": op["w"]})
+                    ck.count("disagree")
+            continue
         stream = kind + ("-exhaustive" if case.get("exhaustive") else "")
         if kind == "dtype":
             ck.case(case, nontrivial=1 <= case["bits"] <= 64, stream="dtype")
@@ -412,7 +547,11 @@ def body(ck: common.Check):
                "and code-transition voltages ±2 ulp (exact rational transition rounded to double); default and explicit wide "
                "data_type; SAR: transition multiples of vmax/2^bits ±2 ulp; noisy SAR with zero strengths/noise (statement) and "
                "with non-zero strengths, zero noise (correspondence only); float32 frames (statement only); all transitions "
-               "±1 ulp exhaustively for ≤ %d bits; get_dtype on 0..70; rn53 vs CPython correctly-rounded division. "
+               "±1 ulp exhaustively for ≤ %d bits; get_dtype on 0..70; rn53 vs CPython correctly-rounded division; "
+               "HISTORIES of 2–4 conversions on one detector object mixing simple_adc / sar_adc / sar_adc_with_noise(0), with "
+               "adc_bit_resolution / adc_voltage_range / data_type changed through the public setters between them (widening "
+               "and narrowing across the 8/16/32/64-bit type boundaries), image bucket emptied or not in between, every "
+               "conversion judged against the statement and against the model of that single conversion. "
                "non-trivial = every converter case; distinct by canonical JSON") % (rounds, 7 if quick else 12)
     ck.assumptions = [
         "allowed converter setting = 4 ≤ bits ≤ 64, finite doubles vmin < vmax whose difference does not overflow; NaN voltages are outside the statement",
@@ -420,6 +559,9 @@ def body(ck: common.Check):
         "an explicit data_type narrower than get_dtype(bits) is the user's choice and outside the statement",
         "'zero noise' of the noisy SAR = strengths and noises all 0.0; np.random.normal(loc, 0.0) returns loc exactly (exercised on every case)",
         "comparison is bit-for-bit (integer codes, dtype, shape); no tolerance",
+        "the statement is read per conversion: the image after a conversion depends on the signal frame and the converter settings of that "
+        "conversion only, not on what the detector's image bucket held before (Props: simpleAdc_store_history_independent); in a history a "
+        "conversion with an explicit narrower data_type is compared with the model only",
     ]
     ck.trusted_base.append("C16: rn53 (ℚ model, proved an IsRounding) equals IEEE-754 binary64 round-to-nearest-even for + − × ÷ without overflow — checked against CPython on every run (stream rn53) and against Lean's hardware Float on every converter case")
     ck.trusted_base.append("C16: numpy semantics modelled: np.clip = min(max(v, lo), hi); ndarray * python-int converts the int to the nearest double; float→uint cast defined only in range (castUB otherwise); uint accumulate is modular; boolean-mask += ")
@@ -433,7 +575,12 @@ def replay_main(path):
         print("replay names a broken obligation/correspondence, no concrete input:", rp["what"])
         return 1
     impl = run_impl(case)
-    findings = property_predicate(case, impl)
+    if case.get("kind") == "history":
+        for op in case["ops"]:
+            op.setdefault("w", default_width(op["bits"]))
+        findings = [(clause, why, None) for _, clause, why in history_findings(case, impl)]
+    else:
+        findings = property_predicate(case, impl)
     print("impl:", json.dumps(impl)[:2000])
     if findings:
         for clause, why, _ in findings:
